@@ -29,14 +29,20 @@ type Interval struct {
 }
 
 // Add Interval to time.Time.
+// addSeconds adds n seconds of elapsed time to t. It does not go through
+// time.Duration, which cannot hold more than about 292 years.
+func addSeconds(t time.Time, n int64) time.Time {
+	return time.Unix(t.Unix()+n, int64(t.Nanosecond())).In(t.Location())
+}
+
 func (i Interval) Add(t time.Time) time.Time {
 	switch i.Scale {
 	case IntervalSecond:
-		return t.Add(time.Second * time.Duration(i.Value))
+		return addSeconds(t, i.Value)
 	case IntervalMinute:
-		return t.Add(time.Minute * time.Duration(i.Value))
+		return addSeconds(t, i.Value*60)
 	case IntervalHour:
-		return t.Add(time.Hour * time.Duration(i.Value))
+		return addSeconds(t, i.Value*3600)
 	case IntervalDay:
 		return t.AddDate(0, 0, int(i.Value))
 	case IntervalWeek:
